@@ -1,7 +1,772 @@
-//! C16 — harness not built yet.
+//! C16 — sentence splitting partitions the text and breaks only after terminators.
+//!
+//! Implementation under test: `SentenceDetector::get_eos`, `SentenceSplitter::{with_limit, with_checker}.split`,
+//! `NonBreakChecker` over a dictionary compiled in memory from a generated lexicon.
+//! Each case records get_eos of the whole text and the ranges of the iterator; the Coq shard re-computes both with the
+//! Gallina model (Model/Sentence.v) and evaluates the property predicates on the implementation's ranges.
 use crate::common::*;
+use serde_json::{json, Value};
+use sudachi::dic::build::DictBuilder;
+use sudachi::dic::DictionaryLoader;
+use sudachi::sentence_detector::{NonBreakChecker, SentenceDetector};
+use sudachi::sentence_splitter::{SentenceSplitter, SplitSentences};
 
-pub fn run(_args: &Args) {
-    eprintln!("no harness for C16 yet");
-    std::process::exit(2);
+// ------------------------------------------------------------------------------------------------
+// independent Rust oracle (char level), written from the regex patterns of sentence_detector.rs
+// ------------------------------------------------------------------------------------------------
+const PERIODS: &str = "。？！♪…?!";
+const DOT: &str = ".．";
+const COMMA: &str = ",，、";
+const OPEN: &str = "({｛[（「【『［≪〔“";
+const CLOSE: &str = ")}]）」｝】』］〕≫”";
+const KANSUJI: &str = "〇一二三四五六七八九十百千万億兆";
+
+fn is_an(c: char) -> bool {
+    c.is_ascii_alphanumeric() || ('ａ'..='ｚ').contains(&c) || ('Ａ'..='Ｚ').contains(&c) || ('０'..='９').contains(&c) || KANSUJI.contains(c)
+}
+fn is_period(c: char) -> bool {
+    PERIODS.contains(c)
+}
+fn is_dot(c: char) -> bool {
+    DOT.contains(c)
+}
+fn is_comma(c: char) -> bool {
+    COMMA.contains(c)
+}
+fn is_open(c: char) -> bool {
+    OPEN.contains(c)
+}
+fn is_close(c: char) -> bool {
+    CLOSE.contains(c)
+}
+fn blen(s: &[char]) -> usize {
+    s.iter().map(|c| c.len_utf8()).sum()
+}
+fn br_tag_at(s: &[char], p: usize) -> bool {
+    p + 4 <= s.len() && (s[p..p + 4] == ['<', 'b', 'r', '>'] || s[p..p + 4] == ['<', 'B', 'R', '>'])
+}
+
+/// length of the SENTENCE_BREAKER match starting exactly at p, if any
+fn breaker_at(s: &[char], p: usize) -> Option<usize> {
+    let n = s.len();
+    let c = s[p];
+    let mut e;
+    if is_period(c) {
+        e = p + 1;
+    } else if c == '・' {
+        let mut q = p;
+        while q < n && s[q] == '・' {
+            q += 1;
+        }
+        if q - p < 3 {
+            return None;
+        }
+        e = q;
+    } else if is_dot(c) {
+        if p > 0 && is_an(s[p - 1]) {
+            return None;
+        }
+        if p + 1 < n && (is_an(s[p + 1]) || is_comma(s[p + 1])) {
+            return None;
+        }
+        e = p + 1;
+    } else if c == '<' {
+        let mut q = p;
+        let mut k = 0;
+        while br_tag_at(s, q) {
+            q += 4;
+            k += 1;
+        }
+        return if k >= 2 { Some(q - p) } else { None };
+    } else {
+        return None;
+    }
+    while e < n && (is_dot(s[e]) || is_period(s[e])) {
+        e += 1;
+    }
+    Some(e - p)
+}
+
+fn paren_level(s: &[char]) -> usize {
+    let mut level = 0usize;
+    for &c in s {
+        if is_open(c) {
+            level += 1;
+        } else if is_close(c) && level > 0 {
+            level -= 1;
+        }
+    }
+    level
+}
+
+fn prohibited_bos(s: &[char]) -> usize {
+    s.iter().take_while(|&&c| is_close(c) || is_comma(c) || is_period(c)).count()
+}
+
+fn continuous_phrase(s: &[char], eos: usize) -> bool {
+    let last = s[eos - 1];
+    let rest = &s[eos..];
+    if (matches!(last, '！' | '？' | '!' | '?') || is_close(last))
+        && (rest[0] == 'と' || rest[0] == 'っ' || (rest.len() >= 2 && rest[0] == 'で' && rest[1] == 'す'))
+    {
+        return true;
+    }
+    let c = rest[0];
+    (c == 'と' || c == 'や' || c == 'の') && eos >= 2 && is_an(s[eos - 2]) && is_dot(s[eos - 1])
+}
+
+/// the repaired NonBreakChecker: a word starting inside the 30-byte look-back window that crosses the candidate,
+/// or ends on it and has more than one character
+fn non_break_word(input: &[char], lex: &[Vec<char>], eos: usize) -> bool {
+    let eos_byte = blen(&input[..eos]);
+    let start = eos_byte.saturating_sub(30);
+    for j in 0..eos {
+        if blen(&input[..j]) < start {
+            continue;
+        }
+        for w in lex {
+            if input[j..].starts_with(w) {
+                let end = j + w.len();
+                if end > eos || (end == eos && w.len() > 1) {
+                    return true;
+                }
+            }
+        }
+    }
+    false
+}
+
+/// the property's own reading (no look-back bound): ANY dictionary word that crosses the candidate, or ends on it with
+/// more than one character
+fn word_across_unbounded(input: &[char], lex: &[Vec<char>], eos: usize) -> bool {
+    for j in 0..eos {
+        for w in lex {
+            if input[j..].starts_with(w) {
+                let end = j + w.len();
+                if end > eos || (end == eos && w.len() > 1) {
+                    return true;
+                }
+            }
+        }
+    }
+    false
+}
+
+pub const CLASS_LOOKBACK: &str = "c16_word_beyond_lookback";
+
+fn is_ws(c: char) -> bool {
+    c.is_whitespace()
+}
+
+/// `.+\s+` leftmost-first on s: end of the match (chars)
+fn spaces_end(s: &[char]) -> Option<usize> {
+    let n = s.len();
+    let p0 = (0..n).find(|&i| s[i] != '\n')?;
+    if let Some(q) = (p0 + 1..n).find(|&i| s[i] == '\n') {
+        let mut e = q;
+        while e < n && is_ws(s[e]) {
+            e += 1;
+        }
+        return Some(e);
+    }
+    (p0 + 1..n).rev().find(|&r| is_ws(s[r])).map(|r| r + 1)
+}
+
+pub fn oracle_get_eos(input: &[char], limit: usize, lex: Option<&[Vec<char>]>) -> i64 {
+    if input.is_empty() {
+        return 0;
+    }
+    let n = usize::min(limit, input.len());
+    let s = &input[..n];
+    let exceeds = n < input.len();
+    let mut p = 0;
+    while p < n {
+        let m = match breaker_at(s, p) {
+            None => {
+                p += 1;
+                continue;
+            }
+            Some(m) => m,
+        };
+        p += m;
+        let mut eos = p;
+        if paren_level(&s[..eos]) > 0 {
+            continue;
+        }
+        if eos < n {
+            eos += prohibited_bos(&s[eos..]);
+        }
+        if n == 2 && is_an(s[0]) && is_dot(s[1]) {
+            continue;
+        }
+        if eos < n && continuous_phrase(s, eos) {
+            continue;
+        }
+        if let Some(l) = lex {
+            if non_break_word(input, l, eos) {
+                continue;
+            }
+        }
+        return blen(&s[..eos]) as i64;
+    }
+    if exceeds {
+        if let Some(e) = spaces_end(s) {
+            return -(blen(&s[..e]) as i64);
+        }
+    }
+    -(blen(s) as i64)
+}
+
+pub fn oracle_split(input: &[char], limit: usize, lex: Option<&[Vec<char>]>) -> Vec<(usize, usize)> {
+    let mut out = vec![];
+    let mut cpos = 0;
+    let mut bpos = 0;
+    while cpos < input.len() {
+        let rv = oracle_get_eos(&input[cpos..], limit, lex);
+        if rv <= 0 {
+            out.push((bpos, bpos + blen(&input[cpos..])));
+            break;
+        }
+        let mut k = cpos;
+        let mut b = 0;
+        while b < rv as usize {
+            b += input[k].len_utf8();
+            k += 1;
+        }
+        out.push((bpos, bpos + b));
+        bpos += b;
+        cpos = k;
+    }
+    out
+}
+
+// ------------------------------------------------------------------------------------------------
+// implementation
+// ------------------------------------------------------------------------------------------------
+fn csv_line(w: &str) -> String {
+    format!("\"{}\",0,0,100,\"{}\",名詞,普通名詞,一般,*,*,*,ゴ,\"{}\",*,A,*,*,*,*\n", w, w, w)
+}
+
+pub fn build_dict(words: &[String]) -> Vec<u8> {
+    let mut b = DictBuilder::new_system();
+    b.read_conn("1 1\n0 0 0\n".as_bytes()).unwrap();
+    let mut csv = String::new();
+    for w in words {
+        csv.push_str(&csv_line(w));
+    }
+    b.read_lexicon(csv.as_bytes()).unwrap();
+    b.resolve().unwrap();
+    let mut out = Vec::new();
+    b.compile(&mut out).unwrap();
+    out
+}
+
+#[derive(Debug, Clone, PartialEq)]
+pub struct Outcome {
+    pub eos: Option<i64>,                  // get_eos of the whole text; None = Err or panic
+    pub ranges: Option<Vec<(usize, usize)>>, // None = panic / error / did not terminate
+    pub slices_ok: bool,
+    pub note: String,
+}
+
+pub fn run_impl(text: &str, limit: usize, dict: Option<&[u8]>) -> Outcome {
+    let loaded = dict.map(|d| DictionaryLoader::read_system_dictionary(d).unwrap().to_loaded().unwrap());
+    let mut note = String::new();
+    let eos = {
+        let checker = loaded.as_ref().map(|l| NonBreakChecker::new(&l.lexicon_set));
+        let sd = SentenceDetector::with_limit(limit);
+        match catch(|| sd.get_eos(text, checker.as_ref())) {
+            Ok(Ok(v)) => Some(v as i64),
+            Ok(Err(e)) => {
+                note = format!("get_eos error: {:?}", e);
+                None
+            }
+            Err(p) => {
+                note = format!("get_eos panicked: {}", p);
+                None
+            }
+        }
+    };
+    let mut slices_ok = true;
+    let ranges = {
+        let sp = SentenceSplitter::with_limit(limit);
+        let sp = match loaded.as_ref() {
+            Some(l) => sp.with_checker(&l.lexicon_set),
+            None => sp,
+        };
+        let cap = text.len() + 2;
+        let r = catch(|| {
+            let mut v = vec![];
+            let mut ok = true;
+            for (r, s) in sp.split(text) {
+                if text.get(r.clone()) != Some(s) {
+                    ok = false;
+                }
+                v.push((r.start, r.end));
+                if v.len() > cap {
+                    return (None, ok);
+                }
+            }
+            (Some(v), ok)
+        });
+        match r {
+            Ok((Some(v), ok)) => {
+                slices_ok = ok;
+                Some(v)
+            }
+            Ok((None, _)) => {
+                note = "iterator did not terminate within |text|+2 steps".into();
+                None
+            }
+            Err(p) => {
+                note = format!("iterator panicked: {}", p);
+                None
+            }
+        }
+    };
+    Outcome { eos, ranges, slices_ok, note }
+}
+
+// ------------------------------------------------------------------------------------------------
+// property predicate on the implementation's output (Rust side; the Coq shard evaluates the same in Gallina)
+// ------------------------------------------------------------------------------------------------
+fn ends_after_terminator(t: &[char]) -> bool {
+    let mut k = t.len();
+    let mut saw = false;
+    while k > 0 && (is_close(t[k - 1]) || is_comma(t[k - 1]) || is_period(t[k - 1]) || is_dot(t[k - 1])) {
+        if is_period(t[k - 1]) || is_dot(t[k - 1]) {
+            saw = true;
+        }
+        k -= 1;
+    }
+    if saw {
+        return true;
+    }
+    let h = &t[..k];
+    if h.len() >= 3 && h[h.len() - 3..].iter().all(|&c| c == '・') {
+        return true;
+    }
+    h.len() >= 8 && br_tag_at(h, h.len() - 4) && br_tag_at(h, h.len() - 8)
+}
+
+fn property_on_output(text: &str, chars: &[char], lex: Option<&[Vec<char>]>, limit: usize, o: &Outcome) -> Option<(String, &'static str)> {
+    let mut known: Option<(String, &'static str)> = None;
+    let ranges = match &o.ranges {
+        None => return Some((format!("no partition produced: {}", o.note), "")),
+        Some(r) => r,
+    };
+    if !o.slices_ok {
+        return Some(("a reported slice differs from the text in its range".into(), ""));
+    }
+    let mut pos = 0;
+    for (i, &(b, e)) in ranges.iter().enumerate() {
+        if b != pos {
+            return Some((format!("range {} starts at {} but the previous one ended at {}", i, b, pos), ""));
+        }
+        if e <= b {
+            return Some((format!("range {} is empty", i), ""));
+        }
+        if !text.is_char_boundary(b) || e > text.len() || !text.is_char_boundary(e) {
+            return Some((format!("range {} = {}..{} is not on character boundaries", i, b, e), ""));
+        }
+        pos = e;
+    }
+    if pos != text.len() {
+        return Some((format!("ranges end at {} but the text has {} bytes", pos, text.len()), ""));
+    }
+    if ranges.len() > chars.len() {
+        return Some(("more sentences than characters".into(), ""));
+    }
+    for (i, &(b, e)) in ranges.iter().enumerate() {
+        let sent: Vec<char> = text[b..e].chars().collect();
+        if i + 1 < ranges.len() {
+            if !ends_after_terminator(&sent) {
+                return Some((format!("sentence {} ({:?}) is not the last one and does not end after a terminator", i, &text[b..e]), ""));
+            }
+            if paren_level(&sent) > 0 {
+                return Some((format!("break after sentence {} ({:?}) lies inside an unclosed bracket", i, &text[b..e]), ""));
+            }
+            if let Some(l) = lex {
+                let cstart = text[..b].chars().count();
+                let rest = &chars[cstart..];
+                if non_break_word(rest, l, sent.len()) {
+                    return Some((format!("break after sentence {} ({:?}) lies inside / at the end of a multi-character dictionary word", i, &text[b..e]), ""));
+                }
+                if known.is_none() && word_across_unbounded(rest, l, sent.len()) {
+                    // only words that start before the 30-byte look-back window are left: the recorded finding
+                    known = Some((
+                        format!("break after sentence {} ({:?}) lies inside / at the end of a multi-character dictionary word that starts more than 30 bytes before the break", i, &text[b..e]),
+                        CLASS_LOOKBACK,
+                    ));
+                }
+            }
+        }
+        // converse (within the window): the first unvetoed terminator of the sentence is where it ends
+        let cstart = text[..b].chars().count();
+        let want = oracle_get_eos(&chars[cstart..], limit, lex);
+        if want > 0 && (e - b) as i64 != want {
+            return Some((
+                format!("sentence {} starting at byte {}: an unvetoed terminator ends at +{} bytes but the sentence runs to +{}", i, b, want, e - b),
+                "",
+            ));
+        }
+    }
+    known
+}
+
+// ------------------------------------------------------------------------------------------------
+// generators
+// ------------------------------------------------------------------------------------------------
+const TERMS: [&str; 9] = ["。", "？", "！", "♪", "…", "?", "!", ".", "．"];
+const OTHER: [&str; 46] = [
+    "・", "・・・", ",", "，", "、", "<br>", "<BR>", "<br><br>", "<BR><br>", "<br", "br>", "<", ">", "a", "Z", "1", "９", "ａ", "〇", "十", "兆", "と", "っ", "で", "す",
+    "や", "の", " ", "\n", "\t", "　", "あ", "京", "都", "に", "行", "た", "x", "😀", "é", "\r", "\u{a0}", "\u{2028}", "\u{85}", "\u{b}", " \n",
+];
+
+fn gen_text(rng: &mut Rng, maxlen: usize) -> String {
+    let n = rng.below(maxlen as u64 + 1) as usize;
+    let mut s = String::new();
+    let mut count = 0;
+    while count < n {
+        let t: &str = match rng.below(10) {
+            0..=2 => *rng.pick(&TERMS),
+            3 => {
+                let cs: Vec<char> = OPEN.chars().collect();
+                let c = *rng.pick(&cs);
+                s.push(c);
+                count += 1;
+                continue;
+            }
+            4 => {
+                let cs: Vec<char> = CLOSE.chars().collect();
+                let c = *rng.pick(&cs);
+                s.push(c);
+                count += 1;
+                continue;
+            }
+            _ => *rng.pick(&OTHER),
+        };
+        s.push_str(t);
+        count += t.chars().count();
+    }
+    s
+}
+
+/// directed shapes named by the property: itemisation headers, numbers with periods, quoting particles, nesting
+fn gen_directed(rng: &mut Rng) -> String {
+    let shapes = [
+        "1. あいう。えお", "1.と2.が。", "1.やb.から。", "3.141", "四百十.〇", "あいう?です。", "あいう?って。", "あいう?という。", "あいう?の？です。",
+        "あ（いう。え）お", "（あ（いう）。え）お", "あ（いう）。えお", "あいう?)えお", "あいう?,えお", "あいう!??", "京都に行った。東京に行った。",
+        "モーニング娘。の歌。次", "ばな。なです。", "a.b", "あ.い", "あ. い", "「あ。」と言った。次", "『あ！』って。次", "(1) あ。(2) い。", "あ・・・い", "あ・・い。う",
+        "あ<br><br>い", "あ<br>い<BR><BR><br>う", "“あ。”い。", "あ。）」、い", "１．あ。２．い", "a.\nb.\n", "あ  い  う", "。。。", "...", "．", "!", "あ。\nい。\n",
+    ];
+    let mut s = rng.pick(&shapes).to_string();
+    // small perturbation: insert / delete / duplicate one piece
+    if rng.chance(1, 2) {
+        let cs: Vec<char> = s.chars().collect();
+        let i = rng.below(cs.len() as u64 + 1) as usize;
+        let ins = if rng.chance(1, 2) { rng.pick(&TERMS).to_string() } else { rng.pick(&OTHER).to_string() };
+        s = cs[..i].iter().collect::<String>() + &ins + &cs[i..].iter().collect::<String>();
+    }
+    if rng.chance(1, 4) {
+        let cs: Vec<char> = s.chars().collect();
+        if !cs.is_empty() {
+            let i = rng.below(cs.len() as u64) as usize;
+            s = cs[..i].iter().chain(cs[i + 1..].iter()).collect();
+        }
+    }
+    s
+}
+
+fn gen_lexicon(rng: &mut Rng, chars: &[char]) -> Vec<String> {
+    let mut words: Vec<String> = vec![];
+    // one-character entries, terminators first
+    for t in TERMS {
+        if rng.chance(1, 2) {
+            words.push(t.to_string());
+        }
+    }
+    if rng.chance(1, 3) {
+        words.push("<br>".into());
+    }
+    // substrings of the text: words containing / ending with / starting with a terminator, and others
+    let n = chars.len();
+    if n > 0 {
+        for _ in 0..rng.below(6) {
+            let i = rng.below(n as u64) as usize;
+            let l = 1 + rng.below(4) as usize;
+            let j = usize::min(n, i + l);
+            let w: String = chars[i..j].iter().collect();
+            if !w.contains('"') && !w.contains('\\') && !w.contains('\n') {
+                words.push(w);
+            }
+        }
+        // around terminators
+        for (i, c) in chars.iter().enumerate() {
+            if (is_period(*c) || is_dot(*c)) && rng.chance(1, 3) {
+                let a = i.saturating_sub(rng.below(3) as usize);
+                let b = usize::min(n, i + 1 + rng.below(3) as usize);
+                let w: String = chars[a..b].iter().collect();
+                if !w.contains('"') && !w.contains('\\') && !w.contains('\n') {
+                    words.push(w);
+                }
+            }
+        }
+    }
+    // long words ending with / containing a terminator: around the 30-byte look-back of the checker
+    for (i, c) in chars.iter().enumerate() {
+        if (is_period(*c) || is_dot(*c)) && i >= 8 && rng.chance(1, 5) {
+            let a = i.saturating_sub(8 + rng.below(5) as usize);
+            let b = usize::min(n, i + 1 + rng.below(2) as usize);
+            let w: String = chars[a..b].iter().collect();
+            if !w.contains('"') && !w.contains('\\') && !w.contains('\n') {
+                words.push(w);
+            }
+        }
+    }
+    if rng.chance(1, 4) {
+        words.push("モーニング娘。".into());
+    }
+    words.sort();
+    words.dedup();
+    words.retain(|w| !w.is_empty());
+    if words.is_empty() {
+        words.push("。".into());
+    }
+    words
+}
+
+fn gen_limit(rng: &mut Rng, nchars: usize) -> usize {
+    match rng.below(10) {
+        0..=4 => 1 + rng.below(8) as usize,
+        5..=6 => 4096,
+        7 => usize::max(1, nchars.saturating_sub(1)),
+        8 => usize::max(1, nchars),
+        _ => nchars + 1,
+    }
+}
+
+// ------------------------------------------------------------------------------------------------
+// cases
+// ------------------------------------------------------------------------------------------------
+fn desc(text: &str, limit: usize, lex: &Option<Vec<String>>) -> Value {
+    json!({"kind": "c16", "text": text, "limit": limit, "lexicon": lex})
+}
+
+fn one_case(sink: &mut Sink, text: &str, limit: usize, lex: &Option<Vec<String>>, verbose: bool) {
+    let chars: Vec<char> = text.chars().collect();
+    let lexc: Option<Vec<Vec<char>>> = lex.as_ref().map(|l| l.iter().map(|w| w.chars().collect()).collect());
+    let dict = lex.as_ref().map(|l| build_dict(l));
+    let out = run_impl(text, limit, dict.as_deref());
+    let want_eos = oracle_get_eos(&chars, limit, lexc.as_deref());
+    let want_ranges = oracle_split(&chars, limit, lexc.as_deref());
+    if verbose {
+        println!("text            : {:?}", text);
+        println!("limit           : {}", limit);
+        println!("lexicon         : {:?}", lex);
+        println!("impl get_eos    : {:?}   {}", out.eos, out.note);
+        println!("impl sentences  : {:?}", out.ranges.as_ref().map(|r| r.iter().map(|&(b, e)| &text[b..e]).collect::<Vec<_>>()));
+        println!("impl ranges     : {:?}", out.ranges);
+        println!("oracle get_eos  : {}", want_eos);
+        println!("oracle ranges   : {:?}", want_ranges);
+    }
+    let lex_term = match &lexc {
+        None => "None".to_string(),
+        Some(l) => format!("(Some {})", clist(l.iter().map(|w| clist(w.iter().map(|c| cn(*c as u32)))))),
+    };
+    let out_term = match (&out.eos, &out.ranges) {
+        (Some(e), Some(r)) => format!("(Some ({}, {}))", cz(*e), clist(r.iter().map(|&(b, e)| cpair(&cnu(b), &cnu(e))))),
+        _ => "None".to_string(),
+    };
+    let term = format!("check_case {} {} {} {}", ctext(text), cnu(limit), lex_term, out_term);
+    let has_term = chars.iter().any(|&c| is_period(c) || is_dot(c)) || text.contains("・・・") || text.to_lowercase().contains("<br><br>");
+    let nsent = out.ranges.as_ref().map(|r| r.len()).unwrap_or(0);
+    sink.tag(if lex.is_some() { "with_checker" } else { "no_checker" });
+    sink.tag(&format!("limit={}", if limit <= 8 { limit.to_string() } else if limit == 4096 { "4096".into() } else { "text-relative".into() }));
+    sink.tag(&format!("sentences={}", usize::min(nsent, 6)));
+    if chars.len() > limit {
+        sink.tag("text_longer_than_window");
+    }
+    if has_term && nsent == 1 {
+        sink.tag("terminator_present_but_single_sentence");
+    }
+    if chars.iter().any(|&c| is_open(c) || is_close(c)) {
+        sink.tag("has_brackets");
+    }
+    let verdict = property_on_output(text, &chars, lexc.as_deref(), limit, &out);
+    let mut d = desc(text, limit, lex);
+    if let Some((_, cls)) = &verdict {
+        if !cls.is_empty() {
+            d["known_class"] = json!(cls);
+            sink.tag("known_finding_lookback");
+        }
+    }
+    let id = sink.case(term, d, has_term);
+    if let Some((why, cls)) = verdict {
+        if cls.is_empty() || (out.eos == Some(want_eos) && out.ranges.as_ref() == Some(&want_ranges)) {
+            sink.fail(id, &why, cls);
+        } else {
+            sink.fail(id, &format!("{}; moreover implementation and reference matcher differ", why), "");
+        }
+    } else if out.eos != Some(want_eos) {
+        sink.fail(id, &format!("get_eos returned {:?} but the reference matcher gives {}", out.eos, want_eos), "");
+    } else if out.ranges.as_ref() != Some(&want_ranges) {
+        sink.fail(id, &format!("sentence ranges {:?} differ from the reference {:?}", out.ranges, want_ranges), "");
+    }
+}
+
+fn corpus() -> Vec<(String, usize, Option<Vec<String>>)> {
+    let mut v: Vec<(String, usize, Option<Vec<String>>)> = vec![];
+    // the reproduced defect of the pinned tree: a one-character entry equal to the terminator must not suppress the break
+    v.push(("京都に行った。東京に行った。".into(), 4096, Some(vec!["。".into()])));
+    v.push(("京都に行った。東京に行った。".into(), 4096, Some(vec!["。".into(), "京都".into(), "に".into(), "た".into()])));
+    v.push(("あ？い！う".into(), 4096, Some(vec!["？".into(), "！".into()])));
+    // a multi-character word containing / ending with the terminator does suppress it
+    v.push(("モーニング娘。の歌。次".into(), 4096, Some(vec!["モーニング娘。".into(), "。".into()])));
+    v.push(("ばな。なです。".into(), 4096, Some(vec!["な。な".into()])));
+    v.push(("あ。いう".into(), 4096, Some(vec!["。".into(), "。い".into()])));
+    // recorded finding: a dictionary word that starts more than 30 bytes before the break is not seen by the checker
+    v.push(("あいうえおかきくけこさ。い".into(), 4096, Some(vec!["あいうえおかきくけこさ。".into()])));
+    v.push(("ああいうえおかきくけこ。い".into(), 4096, Some(vec!["あいうえおかきくけこ。".into()]))); // 11 characters = 33 bytes: still seen? (starts 33 bytes back: not seen)
+    v.push(("あいうえおかきくけ。い".into(), 4096, Some(vec!["あいうえおかきくけ。".into()]))); // 10 characters = 30 bytes: seen, no break
+    // window limits: negative eos sends the iterator to the end of the text
+    v.push(("あいうえおか。き。".into(), 3, None));
+    v.push(("あい。うえお。".into(), 5, None));
+    v.push(("あ い うえお".into(), 5, None));
+    v.push(("😀。😀。😀".into(), 2, None));
+    // pinned unit tests of the detector
+    for t in ["あいうえお。", "あいう。えお。", "あいう。。えお。", "あいうえお", "あいう えお。", "", "あいう.えお", "3.141", "四百十.〇", "あいうえお!??",
+        "あ（いう。え）お", "（あ（いう）。え）お", "あ（いう）。えお", "1. あいう。えお", "あいう?えお", "あいう?)えお", "あいう?,えお", "あいう?です。", "あいう?って。",
+        "あいう?という。", "あいう?の？です。", "1.と2.が。", "1.やb.から。", "1.の12.が。", "テスト。テスト", "　振り返って見ると白い物！　女が軒下で招いている。"] {
+        v.push((t.into(), 4096, None));
+    }
+    v
+}
+
+fn long_text(rng: &mut Rng, nchars: usize) -> String {
+    let mut s = String::new();
+    let mut n = 0;
+    while n < nchars {
+        let t = gen_text(rng, 30);
+        n += t.chars().count();
+        s.push_str(&t);
+        if rng.chance(1, 3) {
+            s.push_str("あいうえおかきくけこ");
+            n += 10;
+        }
+    }
+    s
+}
+
+pub fn run(args: &Args) {
+    let mut sink = Sink::new("C16", &args.out, &["Model.Sentence"], args.seed, &args.tier);
+    sink.shard_size = 120;
+    sink.rule("texts over an alphabet of terminators, periods/full-width dots, middle dots, commas, <br>/<BR> tags and fragments, all bracket kinds, alphanumerics incl. kanji numerals, quoting particles, whitespace, 1-4 byte characters; directed shapes (itemisation headers, decimals, quotes, nesting) with one-piece perturbations; limits 1..8, 4096, |text|-1..|text|+1; without checker or with a dictionary compiled in memory from one-character terminator entries + substrings of the text around terminators; non-trivial = the text contains a terminator candidate; distinct by generated Coq term");
+    if let Some(p) = &args.replay {
+        let v: Value = serde_json::from_str(&std::fs::read_to_string(p).unwrap()).unwrap();
+        let c = &v["case"];
+        if c["kind"] == "c16-big" {
+            let nch = c["chars"].as_u64().unwrap() as usize;
+            let limit = c["limit"].as_u64().unwrap() as usize;
+            let text: String = std::iter::repeat('あ').take(nch).collect::<String>() + "。い";
+            let out = run_impl(&text, limit, None);
+            println!("{} x 'あ' + '。い', window {}: get_eos {:?}, ranges {:?} {}", nch, limit, out.eos, out.ranges, out.note);
+            let id = sink.case_rust_only(c.clone(), true);
+            if out.ranges.is_none() {
+                sink.fail(id, &out.note, "");
+            }
+            sink.finish();
+            return;
+        }
+        let text = c["text"].as_str().unwrap().to_string();
+        let limit = c["limit"].as_u64().unwrap() as usize;
+        let lex: Option<Vec<String>> = c["lexicon"].as_array().map(|a| a.iter().map(|w| w.as_str().unwrap().to_string()).collect());
+        one_case(&mut sink, &text, limit, &lex, true);
+        sink.finish();
+        return;
+    }
+    if let Ok(n) = std::env::var("C16_EXPLORE") {
+        explore(args, n.parse().unwrap());
+        return;
+    }
+    let mut rng = Rng::new(args.seed);
+    for (t, l, lex) in corpus() {
+        one_case(&mut sink, &t, l, &lex, false);
+        sink.tag("corpus");
+    }
+    // windows far beyond the default: implementation only (too large for the Coq evaluation); the regex engine's
+    // backtrack limit must not turn them into an error / panic
+    for (nch, limit) in [(350_000usize, usize::MAX), (350_000, 349_999), (400_000, 1_000_000)] {
+        let text: String = std::iter::repeat('あ').take(nch).collect::<String>() + "。い";
+        let out = run_impl(&text, limit, None);
+        let want = if limit > nch { Some(vec![(0, 3 * nch + 3), (3 * nch + 3, 3 * nch + 6)]) } else { Some(vec![(0, 3 * nch + 6)]) };
+        let id = sink.case_rust_only(json!({"kind": "c16-big", "chars": nch, "limit": limit}), true);
+        sink.tag("huge_window_rust_only");
+        if out.ranges != want {
+            sink.fail(id, &format!("{} x 'あ' + '。い' with window {}: expected ranges {:?}, got {:?} {}", nch, limit, want, out.ranges, out.note), "");
+        }
+    }
+    let n = args.n(1300, 30000);
+    let nlong = args.n(4, 40);
+    let mut longs = 0;
+    for k in 0..n {
+        // texts longer than the default window, one per shard (their model evaluation is the slowest)
+        if k % sink.shard_size == 60 && longs < nlong {
+            longs += 1;
+            let extra = rng.below(200) as usize;
+            let text = long_text(&mut rng, 4100 + extra);
+            let chars: Vec<char> = text.chars().collect();
+            let lex = if rng.chance(1, 2) { Some(gen_lexicon(&mut rng, &chars[..40])) } else { None };
+            one_case(&mut sink, &text, 4096, &lex, false);
+            sink.tag("long_text_default_window");
+        }
+        let text = match k % 4 {
+            0 => gen_directed(&mut rng),
+            1 => gen_text(&mut rng, 8),
+            _ => gen_text(&mut rng, 24),
+        };
+        let chars: Vec<char> = text.chars().collect();
+        let limit = gen_limit(&mut rng, chars.len());
+        let lex = if rng.chance(1, 2) { Some(gen_lexicon(&mut rng, &chars)) } else { None };
+        one_case(&mut sink, &text, limit, &lex, false);
+    }
+    sink.finish();
+}
+
+/// development aid: reference matcher vs implementation on many inputs, no Coq side
+fn explore(args: &Args, n: usize) {
+    if std::env::var("C16_BIG").is_ok() {
+        for (nch, limit) in [(300_000usize, usize::MAX), (1_100_000, usize::MAX), (1_100_000, 4096), (2_000_000, 1_500_000)] {
+            let text: String = std::iter::repeat('あ').take(nch).collect::<String>() + "。い";
+            let t0 = std::time::Instant::now();
+            let out = run_impl(&text, limit, None);
+            println!("big: {} chars limit {} -> eos {:?} ranges {:?} note {:?} ({:?})", nch, limit, out.eos, out.ranges.map(|r| r.len()), out.note, t0.elapsed());
+        }
+        return;
+    }
+    let mut rng = Rng::new(args.seed);
+    let mut bad = 0;
+    for k in 0..n {
+        let text = match k % 4 {
+            0 => gen_directed(&mut rng),
+            1 => gen_text(&mut rng, 8),
+            _ => gen_text(&mut rng, 24),
+        };
+        let chars: Vec<char> = text.chars().collect();
+        let limit = gen_limit(&mut rng, chars.len());
+        let lex = if rng.chance(1, 2) { Some(gen_lexicon(&mut rng, &chars)) } else { None };
+        let lexc: Option<Vec<Vec<char>>> = lex.as_ref().map(|l| l.iter().map(|w| w.chars().collect()).collect());
+        let dict = lex.as_ref().map(|l| build_dict(l));
+        let out = run_impl(&text, limit, dict.as_deref());
+        let we = oracle_get_eos(&chars, limit, lexc.as_deref());
+        let wr = oracle_split(&chars, limit, lexc.as_deref());
+        let prop = property_on_output(&text, &chars, lexc.as_deref(), limit, &out);
+        if out.eos != Some(we) || out.ranges.as_ref() != Some(&wr) || prop.is_some() {
+            bad += 1;
+            if bad <= 15 {
+                println!("MISMATCH text={:?} limit={} lex={:?}\n  impl eos={:?} ranges={:?} {}\n  want eos={} ranges={:?}\n  prop={:?}", text, limit, lex, out.eos, out.ranges, out.note, we, wr, prop);
+            }
+        }
+    }
+    println!("explore: {} cases, {} mismatches", n, bad);
 }
